@@ -437,7 +437,10 @@ let rec run_case (kind : string) (body : sexp list) : string * string =
       (* the consumer is a task: whenever it is woken (a message was queued while it was parked on Pending) it polls the stream
          until it answers Pending or ends.  The producer's error() queues two messages (the error, the end marker): the
          consumer runs between the two. *)
-      let ls = List.map (function Atom "poll" -> FPoll | e -> FEv (ev_of e)) (args (List.nth body 0)) in
+      let raw = args (List.nth body 0) in
+      (* `stale`: an implementation that also wakes the waker of an earlier poll (a spurious wake-up, which the contract allows) *)
+      let stale = List.mem (Atom "stale-wakes") body in
+      let two = List.mem (Atom "poll0") raw in
       let s = ref strm0 and registered = ref false and finished = ref false and out = ref [] in
       let show = function
         | SPending -> "pending"
@@ -455,15 +458,34 @@ let rec run_case (kind : string) (body : sexp list) : string * string =
           | _ -> drain ()
         end in
       let wake () = if !registered then (registered := false; drain ()) in
-      List.iter (fun l -> match l with
+      (* poll0: somebody else polls once with a waker of its own; when the answer is Pending that waker is the registered one
+         (the contract of Stream::poll_next: only the waker of the most recent call is woken), the consumer task is not *)
+      let poll0 () =
+        if not !finished then begin
+          let (s', r) = sstep_ false !s FPoll in
+          s := s';
+          List.iter (fun x -> out := (match x with
+              | SPending -> "pending0"
+              | SReady (SItem v) -> let b = Buffer.create 8 in show_val b v; "(item0 " ^ Buffer.contents b ^ ")"
+              | SReady (SErrItem e) -> Printf.sprintf "(erritem0 %d)" (int_of_z e)
+              | SReady SEnd -> "end0") :: !out) r;
+          (match r with
+           | [SPending] -> if not stale then registered := false
+           | [SReady SEnd] -> finished := true
+           | _ -> ())
+        end in
+      List.iter (fun l0 -> match l0 with
+        | Atom "poll0" -> poll0 ()
+        | _ ->
+          match (match l0 with Atom "poll" -> FPoll | e -> FEv (ev_of e)) with
           | FPoll -> registered := false; drain ()
           | FEv (Err x) when !s.s_obs ->
               let (s1, _) = sstep_ true !s (FEv (Err x)) in
               s := s1; wake ();
               s := { !s with s_queue = !s.s_queue @ [SEnd] }; wake ()
-          | FEv e -> let was = !s.s_obs in let (s1, _) = sstep_ false !s (FEv e) in s := s1; if was then wake ()) ls;
+          | FEv e -> let was = !s.s_obs in let (s1, _) = sstep_ false !s (FEv e) in s := s1; if was then wake ()) raw;
       let r = String.concat " " (List.rev !out) in
-      (r, r)
+      if two && not (List.mem (Atom "model") body) then ("-", "UNSPECIFIED") else (r, r)
   | "status" ->
       (* the flag follows the first terminal; a waiter always returns (C14_no_lost_wakeup: whatever the
          interleaving of the producer's store / wake with the waiter's check / register / re-check) *)
@@ -607,6 +629,13 @@ let gev_of (s : sexp) : gev =
 (* verdict on the implementation's trace: None when the case kind has no predicate oracle *)
 let oracle (kind : string) (body : sexp list) (impl : string) : string option =
   match kind with
+  | "tostream_wake" when List.mem (Atom "poll0") (args (List.nth body 0)) ->
+      (* two wakers: the task must be woken when its waker is the one registered last; waking the earlier waker as well
+         is a spurious wake-up and allowed *)
+      let (a, _) = run_case kind (body @ [Atom "model"]) in
+      let (b, _) = run_case kind (body @ [Atom "model"; Atom "stale-wakes"]) in
+      if impl = a || impl = b then Some "ok"
+      else Some "reject:C14 a consumer task parked on Pending with its waker registered last was not woken (or the stream yielded something else than the source emitted)"
   | "group_by" when atom_opt (List.nth body 1) = Some "chunk2" || List.length body > 3 ->
       (* judged against the model's trace: every item to the group of its key (a key evaluated once per item), groups
          announced before a cut of the stream of groups still served *)
@@ -944,7 +973,7 @@ let () =
                with Failure msg -> ("MODEL-ERROR " ^ msg, "MODEL-ERROR " ^ msg) in
              Buffer.add_string out (id ^ " M " ^ m ^ "\n");
              Buffer.add_string out (id ^ " S " ^ s ^ "\n");
-             (match (try oracle kind body m with _ -> Some "reject:unparsable") with
+             (match (if m = "-" then None else try oracle kind body m with _ -> Some "reject:unparsable") with
               | Some v when v <> "ok" && not (String.length v >= 6 && String.sub v 0 6 = "known:") -> Buffer.add_string out (id ^ " X " ^ v ^ "\n")
               | _ -> ());
              (match Hashtbl.find_opt impl_tbl id with
